@@ -39,6 +39,27 @@ ServiceEdges ==
   \cup Cross(SvcOut, {"logouting"}) \cup Cross({"logouting"}, {"forbidden"} \cup SvcOut)
   \cup Cross({"pause", "logouting"}, {"forbidden"})                    \* cleared when the appchain is logged out
 
+\* roles (governance admins, audit admins), internal/executor/contracts/role.go
+RoleFrz == {"available", "activating", "logouting"}
+RoleAct == {"frozen", "freezing", "logouting"}
+RoleOut == {"available", "freezing", "frozen", "activating", "binding"}
+RoleEdges ==
+  Cross({"", "unavailable"}, {"registering"}) \cup Cross({"registering"}, {"available", "unavailable", ""})
+  \cup Cross(RoleFrz, {"freezing"}) \cup Cross({"freezing"}, {"frozen"} \cup RoleFrz)
+  \cup Cross(RoleAct, {"activating"}) \cup Cross({"activating"}, {"available"} \cup RoleAct)
+  \cup Cross(RoleOut, {"logouting"}) \cup Cross({"logouting"}, {"forbidden"} \cup RoleOut)
+  \cup {<<"frozen", "binding">>, <<"binding", "available">>, <<"binding", "frozen">>}   \* an audit admin gets another node
+  \cup Cross({"available", "binding"}, {"frozen"})                                      \* paused: its audit node went away
+
+\* audit / validator nodes, bitxhub-core node-mgr
+NodeUpd == {"available", "binded", "logouting"}
+NodeOut == {"available", "binding", "binded", "updating"}
+NodeEdges ==
+  Cross({"", "unavailable"}, {"registering"}) \cup Cross({"registering"}, {"available", "unavailable", ""})
+  \cup Cross(NodeUpd, {"updating"}) \cup Cross({"updating"}, NodeUpd)
+  \cup Cross({"available", "logouting"}, {"binding"}) \cup {<<"binding", "binded">>, <<"binding", "available">>, <<"binded", "available">>}
+  \cup Cross(NodeOut, {"logouting"}) \cup Cross({"logouting"}, {"forbidden"} \cup NodeOut)
+
 \* prev, cur : object -> status before / after a block; ngov = number of governance-capable transactions in the block
 LifecycleViol(kind, edges, prev, cur, ngov) ==
   LET both == DOMAIN prev \cap DOMAIN cur
